@@ -9,6 +9,7 @@ import (
 	"sort"
 	"strings"
 	"sync"
+	"time"
 
 	evalfilter "github.com/skx/evalfilter/v2"
 	"github.com/skx/evalfilter/v2/object"
@@ -37,9 +38,20 @@ func concRuns(path string) {
 	for i, s := range specs {
 		out := map[string]interface{}{"i": i, "kind": s.Kind}
 		switch s.Kind {
-		case "shared", "counter":
+		case "shared", "counter", "shared-host":
 			// sequential reference on a fresh evaluator
 			ref := evalfilter.New(s.Script)
+			pause := func(args []object.Object) object.Object {
+				// a host function during which other goroutines get to call Run on the same evaluator
+				time.Sleep(200 * time.Microsecond)
+				if len(args) > 0 {
+					return args[0]
+				}
+				return &object.Null{}
+			}
+			if s.Kind == "shared-host" {
+				ref.AddFunction("pause", pause)
+			}
 			if err := ref.Prepare(); err != nil {
 				out["error"] = "prepare: " + err.Error()
 				break
@@ -53,6 +65,9 @@ func concRuns(path string) {
 				}
 			}
 			e := evalfilter.New(s.Script)
+			if s.Kind == "shared-host" {
+				e.AddFunction("pause", pause)
+			}
 			if err := e.Prepare(); err != nil {
 				out["error"] = "prepare: " + err.Error()
 				break
